@@ -174,6 +174,6 @@ def run(run, P):
         def kf(e):
             return (e.ts.get('drained'),) + tuple(e.ts.get('h:' + q) for q in sorted(qvars))
         solve(f, Env({}), on_event, None, keys, R, key_fn=kf, on_branch=on_branch)
-    run.require(nsites >= (4 if run.cfg == 'base' else 2) or run.fixture_mode,
+    run.require_count(nsites >= (4 if run.cfg == 'base' else 2) or run.fixture_mode,
                 'R-DELAYQ-NACK: fewer than 4 deletions of nodes taken off a delay queue found (expected coap_session_mfree, coap_session_connected, '
                 'coap_session_disconnected_lkd x2, coap_write_session)')
